@@ -65,14 +65,20 @@ Proof.
   - apply IH; [assumption |]. intros Hin. apply Hx. now right.
 Qed.
 
-Lemma assign_names_spec : forall olds mp, NoDup (map fst mp) ->
-  NoDup (map fst (assign_names olds mp)) /\ map snd (assign_names olds mp) = map snd mp ++ olds.
+Lemma assign_names_spec avoid : forall olds mp, NoDup (map fst mp) ->
+  NoDup (map fst (assign_names avoid olds mp)) /\ map snd (assign_names avoid olds mp) = map snd mp ++ olds /\
+  (forall p, In p (assign_names avoid olds mp) -> In p mp \/ ~ In (fst p) avoid).
 Proof.
   induction olds as [| o olds IH]; intros mp Hnd; simpl.
-  - split; [exact Hnd | now rewrite app_nil_r].
-  - destruct (IH (mp ++ [(fresh_name (map fst mp), o)])) as [H1 H2].
-    + rewrite map_app. simpl. apply NoDup_snoc; [exact Hnd | apply fresh_name_notin].
-    + split; [exact H1 |]. rewrite H2, map_app. simpl. now rewrite <- app_assoc.
+  - split; [exact Hnd | split; [now rewrite app_nil_r | auto]].
+  - pose proof (fresh_name_notin (map fst mp ++ avoid)) as Hfresh.
+    destruct (IH (mp ++ [(fresh_name (map fst mp ++ avoid), o)])) as [H1 [H2 H3]].
+    + rewrite map_app. simpl. apply NoDup_snoc; [exact Hnd |]. intros Hin. apply Hfresh. apply in_or_app. now left.
+    + split; [exact H1 |]. split.
+      * rewrite H2, map_app. simpl. now rewrite <- app_assoc.
+      * intros p Hp. destruct (H3 p Hp) as [Hin | Hn]; [| now right].
+        apply in_app_or in Hin. destruct Hin as [Hin | [<- | []]]; [now left |].
+        right. simpl. intros Hin. apply Hfresh. apply in_or_app. now right.
 Qed.
 
 (* ---- new_of is one-to-one on the recorded names ---- *)
@@ -99,18 +105,20 @@ Proof.
 Qed.
 
 (* ---- the variable definitions after the mapper ---- *)
+Definition renamed (mp : list (name * name)) (n : name) : name :=
+  if mem_bytes n (map snd mp) then new_of mp n else n.
+
 Lemma map_vardefs_names mp : forall vars done,
   NoDup (map vd_name vars) -> (forall n, In n done -> ~ In n (map vd_name vars)) ->
-  (forall vd, In vd vars -> In (vd_name vd) (map snd mp)) ->
-  map vd_name (map_vardefs mp done vars) = map (new_of mp) (map vd_name vars).
+  map vd_name (map_vardefs mp done vars) = map (renamed mp) (map vd_name vars).
 Proof.
-  induction vars as [| vd vars IH]; intros done Hnd Hdone Hall; simpl; [reflexivity |].
+  induction vars as [| vd vars IH]; intros done Hnd Hdone; simpl; [reflexivity |].
   simpl in Hnd. inversion Hnd as [| ? ? Hn Hnd']; subst.
-  assert (Hm : mem_bytes (vd_name vd) (map snd mp) = true) by (apply mem_bytes_In; apply Hall; now left).
   assert (Hd : mem_bytes (vd_name vd) done = false).
   { apply mem_bytes_false. intros Hin. apply (Hdone _ Hin). now left. }
-  rewrite Hm, Hd. simpl. f_equal. apply IH; [exact Hnd' | | intros; apply Hall; now right].
-  intros n [<- | Hin]; [exact Hn |]. intros Hin'. apply (Hdone n Hin). now right.
+  unfold renamed at 1. rewrite Hd. destruct (mem_bytes (vd_name vd) (map snd mp)); simpl; f_equal.
+  - apply IH; [exact Hnd' |]. intros n [<- | Hin]; [exact Hn |]. intros Hin'. apply (Hdone n Hin). now right.
+  - apply IH; [exact Hnd' |]. intros n Hin Hin'. apply (Hdone n Hin). now right.
 Qed.
 
 Lemma insert_vardef_perm x l : Permutation (insert_vardef x l) (x :: l).
@@ -134,25 +142,34 @@ Proof.
   - apply IH; [| assumption]. intros a b Ha Hb. apply Hinj; now right.
 Qed.
 
-Theorem mapper_no_collision_partial_proof :
-  forall o, NoDup (op_var_names o) -> (forall n, In n (op_var_names o) -> In n (collect_op o)) ->
+(* the repaired mapper never gives two definitions one name *)
+Theorem mapper_no_collision_proof :
+  forall o, NoDup (op_var_names o) ->
   NoDup (op_var_names (fst (map_variables o))) /\ NoDup (map fst (snd (map_variables o))).
 Proof.
-  intros o Hnd Hall. unfold map_variables. simpl.
-  destruct (assign_names_spec (collect_op o) []) as [H1 H2]; [constructor |]. simpl in H2.
+  intros o Hnd. unfold map_variables, map_variables_gen. simpl.
+  set (olds := collect_op o). set (avoid := reserved_names true (op_vars o) olds).
+  destruct (assign_names_spec avoid olds []) as [H1 [H2 H3]]; [constructor |]. simpl in H2.
   split; [| exact H1].
   unfold op_var_names. simpl.
-  apply (Permutation_NoDup (l := map vd_name (map_vardefs (assign_names (collect_op o) []) [] (op_vars o)))).
+  apply (Permutation_NoDup (l := map vd_name (map_vardefs (assign_names avoid olds []) [] (op_vars o)))).
   { apply Permutation_sym. apply Permutation_map. apply sort_vardefs_perm. }
-  rewrite map_vardefs_names.
-  - apply NoDup_map_inj_on; [| exact Hnd].
-    intros a b Ha Hb E. apply (new_of_inj (assign_names (collect_op o) [])); auto; rewrite H2; now apply Hall.
-  - exact Hnd.
-  - intros n [].
-  - intros vd Hvd. rewrite H2. apply Hall. unfold op_var_names. now apply in_map.
+  rewrite map_vardefs_names; [| exact Hnd | intros n []].
+  apply NoDup_map_inj_on; [| exact Hnd].
+  intros a b Ha Hb E. unfold renamed in E. rewrite H2 in E.
+  assert (Hres : forall n, In n (op_var_names o) -> mem_bytes n olds = false -> In n avoid).
+  { intros n Hn Hm. unfold avoid, reserved_names. apply filter_In. split; [exact Hn | now rewrite Hm]. }
+  assert (Hnew : forall n, mem_bytes n olds = true -> ~ In (new_of (assign_names avoid olds []) n) avoid).
+  { intros n Hm. apply mem_bytes_In in Hm. rewrite <- H2 in Hm.
+    destruct (new_of_in _ n Hm) as [p [Hp [_ ->]]]. destruct (H3 p Hp) as [[] | Hn]. exact Hn. }
+  destruct (mem_bytes a olds) eqn:Ea, (mem_bytes b olds) eqn:Eb.
+  - apply (new_of_inj (assign_names avoid olds [])); auto; rewrite H2; now apply mem_bytes_In.
+  - exfalso. apply (Hnew a Ea). rewrite E. now apply Hres.
+  - exfalso. apply (Hnew b Eb). rewrite <- E. now apply Hres.
+  - exact E.
 Qed.
 
-(* ---- the collision ---- *)
+(* ---- the historical collision ---- *)
 (* query($a: Upload, $x: String) { f(file: $a, s: $x) } *)
 Definition collision_op : operation :=
   {| op_kind := OpQuery; op_name := None;
@@ -162,11 +179,15 @@ Definition collision_op : operation :=
      op_sels := [SField None [102]%N [([102;105;108;101]%N, VVar [97]%N); ([115]%N, VVar [120]%N)] [] []] |}.
 
 Example collision_result :
-  op_var_names (fst (map_variables collision_op)) = [[97]%N; [97]%N] /\ snd (map_variables collision_op) = [([97]%N, [120]%N)].
-Proof. vm_compute. split; reflexivity. Qed.
+  op_var_names (fst (map_variables_gen false collision_op)) = [[97]%N; [97]%N] /\
+  snd (map_variables_gen false collision_op) = [([97]%N, [120]%N)] /\
+  op_var_names (fst (map_variables collision_op)) = [[97]%N; [98]%N] /\
+  snd (map_variables collision_op) = [([98]%N, [120]%N)].
+Proof. vm_compute. repeat split; reflexivity. Qed.
 
-Lemma mapper_collision_refuted_proof :
-  exists o, NoDup (op_var_names o) /\ uses_defined_b o = true /\ ~ NoDup (op_var_names (fst (map_variables o))).
+Lemma mapper_collision_historical_refuted_proof :
+  exists o, NoDup (op_var_names o) /\ uses_defined_b o = true /\
+            ~ NoDup (op_var_names (fst (map_variables_gen false o))).
 Proof.
   exists collision_op. split; [| split].
   - apply nodup_bytes_b_NoDup. vm_compute. reflexivity.
@@ -183,5 +204,7 @@ Definition collision_op2 : operation :=
      op_dirs := [];
      op_sels := [SField None [102]%N [([111]%N, VObj [([107]%N, VVar [97]%N)]); ([115]%N, VVar [98]%N)] [] []] |}.
 
-Example collision_result2 : op_var_names (fst (map_variables collision_op2)) = [[97]%N; [97]%N].
-Proof. vm_compute. reflexivity. Qed.
+Example collision_result2 :
+  op_var_names (fst (map_variables_gen false collision_op2)) = [[97]%N; [97]%N] /\
+  op_var_names (fst (map_variables collision_op2)) = [[97]%N; [98]%N].
+Proof. vm_compute. split; reflexivity. Qed.
